@@ -300,6 +300,13 @@ FAMILIES.append(
            required_labels=["container=lf_full", "outcome=ok", "result-differs-from-input", "op=coerce", "op=default",
                             "op=add_missing"]))
 
+from . import _c03_edited  # noqa: E402
+
+FAMILIES.append(
+    Family("edited_result", _c03_edited.eval_edited, strategy=lambda: _c03_edited.strat_edited(strat_pandas), n_quick=500,
+           n_thorough=3000, shards_quick=2, shards_thorough=8,
+           required_labels=["edited:raw-back", "edited:null-cell", "edited:drop-column", "edited:edit-matters"]))
+
 
 def selftest():
     refmodel.selftest()
